@@ -20,6 +20,8 @@ pub struct Scn {
     pub enable_key: bool,
     pub di_windows: bool,
     pub nested_ei: bool,
+    #[serde(default)]
+    pub mask_windows: bool,
     /// start and width of the window swept with ordered pairs of presses
     pub pair_window: (u32, u32),
     /// restrict the sweep to these trigger edges (set by minimisation); empty = all
@@ -183,7 +185,7 @@ impl C04 {
         if base.end.sut.bus().memory()[IRQ_COUNTER as usize] != 0 {
             return Err(v("spurious-entry", "the interrupt routine ran although no key was pressed".into()));
         }
-        let plain = scn.enable_key && !scn.di_windows && !scn.nested_ei;
+        let plain = scn.enable_key && !scn.di_windows && !scn.nested_ei && !scn.mask_windows;
         let limit = base.total + 4000; // an ISR with a worst-case DIV costs ~600 edges; two (nested) entries plus slack
         // ---- single press at every edge ----
         let mut ls = new_ls(scn);
@@ -194,7 +196,25 @@ impl C04 {
                 let mut f = ls.clone();
                 press_cov(&f, false, ctx);
                 f.stim(&Stim::KeyInt)?;
-                ctx.cov.fault(if f.presses.last().map(|p| p.1).unwrap_or(false) { "K-INT" } else { "K-MASKED" });
+                let latched = f.presses.last().map(|p| p.1).unwrap_or(false);
+                ctx.cov.fault(if latched { "K-INT" } else { "K-MASKED" });
+                if scn.mask_windows {
+                    if !latched && base.t_enabled.map(|te| ls.edge >= te).unwrap_or(false) {
+                        ctx.cov.probe("press-inside-mask-window");
+                    }
+                    if latched && !ls.sut.is_instruction_done() {
+                        // does the instruction in flight clear the enable bit before its end?
+                        let mut c = ls.sut.clone();
+                        let mut k = 0;
+                        while !c.is_instruction_done() && k < 40 {
+                            c.trigger_key_clock();
+                            k += 1;
+                        }
+                        if !c.bus().is_key_edge_int_enabled() {
+                            ctx.cov.probe("press-latched-then-masked-before-the-boundary");
+                        }
+                    }
+                }
                 let what = format!("press before edge {}", t + 1);
                 let second: Vec<(u32, Stim)> = if scn.only.len() > 1 { vec![(scn.only[1], Stim::KeyInt)] } else { vec![] };
                 if scn.only.len() <= 1 {
@@ -291,6 +311,7 @@ impl Check for C04 {
             nested_ei: variant == 3,
             isr_work: rng.chance(2, 3),
             enable_by_store: rng.bool(),
+            mask_windows: variant == 8 || variant == 9,
         };
         let o = HazardOpts { len: 6 + rng.usize(30), wild: false, run_into_io: false, with_ei: true, irq: Some(irq) };
         let bytes = gen::hazard_program(rng, o);
@@ -318,6 +339,7 @@ impl Check for C04 {
             enable_key: irq.enable_key,
             di_windows: irq.di_windows,
             nested_ei: irq.nested_ei,
+            mask_windows: irq.mask_windows,
             pair_window: (rng.below(400) as u32, w),
             only: vec![],
             max_edges: 3500,
@@ -362,7 +384,7 @@ impl Check for C04 {
         out
     }
     fn rule(&self) -> String {
-        "Per sampled (main program, ISR) pair: an uninterrupted run, then one run per clock edge t in 0..T with the key pressed right before edge t+1 (forked from a checkpoint of the uninterrupted run), then every ordered pair of press edges inside a seeded window of 16-115 edges. Programs: hazard-biased bodies (ALU incl. MUL/DIV, all addressing modes on a private data area, typed PUSH/POP/PUSHF/POPF, CALL/RET, conditional jumps, bounded loops, self-modifying stores, writes to FE/FF) behind `JR MAIN; JR ISR; LDSP; BITS (0xF9),1; EI`; variants: key never enabled, DI windows / IE-clearing flag loads, nested EI in the ISR. evaluations = interrupted runs; distinct = distinct (instruction class in flight, edges since the last boundary, first/second press) placements.".into()
+        "Per sampled (main program, ISR) pair: an uninterrupted run, then one run per clock edge t in 0..T with the key pressed right before edge t+1 (forked from a checkpoint of the uninterrupted run), then every ordered pair of press edges inside a seeded window of 16-115 edges. Programs: hazard-biased bodies (ALU incl. MUL/DIV, all addressing modes on a private data area, typed PUSH/POP/PUSHF/POPF, CALL/RET, conditional jumps, bounded loops, self-modifying stores, writes to FE/FF) behind `JR MAIN; JR ISR; LDSP; BITS (0xF9),1; EI`; variants: key never enabled, DI windows / IE-clearing flag loads, nested EI in the ISR, mask windows (enable bit cleared by a store to 0xF9 and set again later). evaluations = interrupted runs; distinct = distinct (instruction class in flight, edges since the last boundary, first/second press) placements.".into()
     }
     fn assumptions(&self) -> Vec<String> {
         vec![
@@ -378,11 +400,11 @@ impl Check for C04 {
         json!({
             "image": s.setup.image.bytes.iter().take(0x98).map(|b| format!("{:02X}", b)).collect::<Vec<_>>().join(" "),
             "stack": s.setup.image.stack, "regs": s.setup.regs, "enable_key": s.enable_key, "di_windows": s.di_windows,
-            "nested_ei": s.nested_ei, "pair_window": [s.pair_window.0, s.pair_window.1],
+            "nested_ei": s.nested_ei, "mask_windows": s.mask_windows, "pair_window": [s.pair_window.0, s.pair_window.1],
         })
     }
     fn must_fire(&self, _tier: Tier) -> Vec<String> {
-        ["K-INT", "K-MASKED", "K-BOUNCE", "press-inside-MUL", "press-inside-DIV", "press-inside-CALL", "press-during-EI", "press-during-RETI", "press-during-entry-sequence", "second-press-while-first-pending", "second-press-inside-ISR", "press-during-memory-wait-of-fetch", "press-during-reset-sequence"]
+        ["K-INT", "K-MASKED", "K-BOUNCE", "press-inside-MUL", "press-inside-DIV", "press-inside-CALL", "press-during-EI", "press-during-RETI", "press-during-entry-sequence", "second-press-while-first-pending", "second-press-inside-ISR", "press-during-memory-wait-of-fetch", "press-during-reset-sequence", "press-inside-mask-window", "press-latched-then-masked-before-the-boundary"]
             .iter()
             .map(|s| s.to_string())
             .collect()
